@@ -150,7 +150,7 @@ def rule_skipguard(ctx):
     # query loop covers every frame
     lid = symeval.pc_loops(sc[0].pc)[0]
     it = s.loops[lid][1]
-    good = it.op == "call" and call_name(it) == "builtins.range" and len(it.a[1]) == 1 and it.a[1][0].op == "sub" and it.a[1][0].a[0].op == "attr" and it.a[1][0].a[0].a[1] == "shape"
+    good = it.op == "call" and call_name(it) == "builtins.range" and len(it.a[1]) == 1 and common.dim_of(it.a[1][0]) is not None
     yield ob(R, f, "hierarchy._gauc:all-queries", good, "queries range over every frame (range(n))")
 
 
